@@ -97,11 +97,19 @@ def seq_batch(n, seed):
             n_before = len(model.rec)
             trace.append((op, xo.tolist(), y, sd))
             try:
+                # other valid spellings of the SAME numbers handed to the logger: an integer-typed whole SD, numpy scalars
+                sd_in, y_in = sd, y
+                if sd is not None and sd == 2.0:
+                    # (no float32 spelling: with a single-precision SD the merge is carried out in single precision, which
+                    # the model's 1e-12 tolerance would report although nothing in the statement fixes the precision)
+                    sd_in = [2.0, 2, np.int64(2), np.float64(2.0)][int(rs2.randint(4))]
+                if rs2.rand() < 0.2:
+                    y_in = np.float64(y)
                 if op == "add":
-                    out = fl.add(u.copy(), y, sd)
+                    out = fl.add(u.copy(), y_in, sd_in)
                     mo = model.observe(x_back, u, y, sd if level == 2 else (1 if level > 0 else None) and None, record=True, via_add=True)
                 else:
-                    cur["ret"] = (y, sd) if level == 2 else y
+                    cur["ret"] = (y_in, sd_in) if level == 2 else y_in
                     out = fl(u.copy(), record_duplicate_data=(op == "call"))
                     mo = model.observe(x_back, u, y, sd, record=(op == "call"))
             except Exception as e:
